@@ -12,6 +12,7 @@ func init() {
 		Cfgs: []cfgSpec{
 			{Name: "concurrent-writers-one-reader", Cfg: "clients=3,wdel=3", Gating: true, Share: 3},
 			{Name: "quiescent-single-client-with-reopen", Cfg: "clients=1,noreader,wdel=4,wmeta=2,reopen", Gating: true, Share: 2},
+			{Name: "overlapping-shard-groups-observing", Cfg: "clients=1,noreader,wdel=2,wmeta=0,overlap,nosettle", Gating: false, Share: 1},
 		},
 		QuickSecs: 60, ThoroughSecs: 900, MaxRunsPerProc: 150,
 		Rule: "one case = one generated program of writes (overwrites, out-of-order timestamps, batches straddling shard seams; routed by time slot to 3 shards), " +
